@@ -33,6 +33,14 @@ def handle (line : String) : String :=
       | .ok _, .error (.unsupported wh) => s!"skip {dn}-unsupported: " ++ wh
       | .ok a, .error e => s!"DISAGREE wgsl{(a.filter (·.1 == 1)).map (fun p => Driver.Sem.wordsOf p.2)} {dn}-error[{showErrC e}]"
     | _, _ => "bad-case"
+  | some [.list [.atom "redecl", .atom dn, .list [.atom "unit", u]]] =>
+    -- names only: does the translation unit declare one name twice in one scope?
+    match dialectOf dn, u with
+    | some d, .list (.atom "unit" :: items) =>
+      match CLike.redeclaration d items with
+      | none => "ok"
+      | some e => e
+    | _, _ => "bad-case"
   | some [.list [.atom "crun", .atom dn, .list [.atom "unit", u], .list (.atom "inputs" :: ins)]] =>
     match dialectOf dn, Driver.Sem.parseInputs ins with
     | some d, some inputs =>
